@@ -116,8 +116,8 @@ Section Proofs.
   Proof. induction n; simpl; congruence. Qed.
 
   Lemma step_refines st o :
-    map abs (fst (step A st o)) = fst (sstep A (map abs st) o) /\
-    snd (step A st o) = snd (sstep A (map abs st) o).
+    map abs (fst (fstep A st o)) = fst (sstep A (map abs st) o) /\
+    snd (fstep A st o) = snd (sstep A (map abs st) o).
   Proof.
     destruct o as [q n|q n|q n|q n|q n|q|q]; simpl;
       rewrite nth_opt_map; destruct (nth_opt st q) as [it|] eqn:Eq; simpl; auto.
@@ -152,7 +152,7 @@ Section Proofs.
   Proof.
     revert st; induction ops as [|o ops IH]; intros st; simpl; auto.
     pose proof (step_refines st o) as [H1 H2].
-    destruct (step A st o) as [st' ev]; destruct (sstep A (map abs st) o) as [sst' sev]; simpl in *.
+    destruct (fstep A st o) as [st' ev]; destruct (sstep A (map abs st) o) as [sst' sev]; simpl in *.
     subst sev. rewrite <- H1. specialize (IH st').
     destruct (run A ops st') as [st'' ev']; destruct (srun A ops (map abs st')) as [sst'' sev']; simpl in *.
     destruct IH as [IH1 IH2]. subst. auto.
@@ -170,7 +170,7 @@ Section Proofs.
   Theorem negative_refused st o q n :
     (o = OLimit q n \/ o = ODrop q n \/ o = OTail q n \/ o = OTake q n \/ o = OTee q n) ->
     (n < 0)%Z -> q < length st ->
-    step A st o = (st, [EvValueError]).
+    fstep A st o = (st, [EvValueError]).
   Proof.
     intros Ho Hn Hq.
     assert (Hlt : Z.ltb n 0 = true) by (apply Z.ltb_lt; exact Hn).
